@@ -39,6 +39,9 @@ func (lam *Lambda) Call(s *Scope, args List, depth int) (result Object) {
 	if 0 < len(lam.Doc.Name) {
 		ss.Name = Symbol(lam.Doc.Name)
 	}
+	if reqCnt := lam.requiredCount(); len(args) < reqCnt {
+		ErrorPanic(s, depth, "Too few arguments to %s. At least %d expected but got %d.", lam, reqCnt, len(args))
+	}
 	mode := reqMode
 	ai := 0
 	var (
@@ -195,6 +198,17 @@ Aux:
 		}
 	}
 	return lam.BoundCall(ss, depth)
+}
+
+// requiredCount returns the number of required parameters of the lambda list.
+func (lam *Lambda) requiredCount() (cnt int) {
+	for _, ad := range lam.Doc.Args {
+		if strings.HasPrefix(ad.Name, "&") {
+			break
+		}
+		cnt++
+	}
+	return
 }
 
 // isKeyParam returns true if name is the name of one of the &key parameters
